@@ -13,7 +13,9 @@ PROPS = {
         'props_file': 'props/C20.v',
         'domains': [
             {'name': 'breaker', 'quick': 160, 'thorough': 4000, 'thorough_shards': 20},
+            {'name': 'loc-capacity', 'quick': 300, 'thorough': 10000, 'thorough_shards': 10},
         ],
+        'spec_ops': [],
         'corr': 'corr.breaker (CorrBreaker.check_breaker: step-by-step replay of observed Do/Status/Reset/Adjust through Breaker.b_do Fixed)',
         'rule': 'breaker: histories of 10-60 Do/Status calls (bursts, polling faster/slower than a tick, silences around '
                 'the interval; 1 in 5 with Reset/Adjust; 1 in 11 with 8 concurrent callers) on a real OutboundBreaker; '
@@ -26,9 +28,8 @@ PROPS = {
                       'interleavings. Tie to the code: step-by-step replay of observed histories of the real OutboundBreaker (state accessor under tag verif) '
                       'through the extracted model, plus the extracted spec checkers on the observations (8 concurrent callers included).',
         'level_note': 'Trusted: Coq kernel, extraction (ExtrOcamlBasic), OCaml JSON glue, Go harness; monotonic clock, instants inside recorded brackets; '
-                      'capacity clause (MaxFacts) is covered by the location model when built (see evidence partial field).',
+                      'capacity: refused_add_no_effect and add_respects_capacity over the location model (property facts written by EnableRule/SetParents bypass the capacity gate by design of the code: D23, outside the public add operations).',
         'technique': 'Coq proof by invariant over call sequences (sliding-window potential) + differential replay of the real breaker',
-        'partial': 'capacity (MaxFacts) clause not yet in the model',
         'assumptions': ['call instants are non-decreasing (clock read inside the mutex, monotonic clock)',
                         'interval >= 20ns (smaller intervals divide by zero in slide)',
                         'the instant used by the code lies inside the recorded clock bracket'],
@@ -77,5 +78,42 @@ PROPS = {
         'technique': 'Coq invariant proof over operation histories + refinement to linear search; differential replay of Location histories',
         'assumptions': ['UUIDs returned for omitted ids are fresh (taken from the trace; distinctness is checked by the harness only)',
                         'encoding/json round-trips the JSON fragment faithfully'],
+    },
+    'C08': {
+        'props_file': 'props/C08.v',
+        'domains': [{'name': 'loc-cascade', 'quick': 500, 'thorough': 20000, 'thorough_shards': 10}],
+        'spec_ops': ['remfact', 'remrule'],
+        'corr': 'corr.loc (CorrLoc.check_loc) with the executable deleteWith-closure judged after every successful removal',
+        'rule': 'loc-cascade: histories over 3-6 ids where half of the facts and rules carry deleteWith lists (1-2 targets, self references, cycles, '
+                'dangling targets, a variable-looking id in 1 of 6 cases), property facts via EnableRule, removals of facts/rules in random order, '
+                'both state kinds, reloads; after each removal the remaining ids (memory and storage) are compared with the closure spec; '
+                'non-trivial = at least 3 distinct (op, outcome) kinds; distinct by hash of inputs',
+        'refuted': ['varlike_id_refuted (D14)'],
+        'level_text': 'Coq theorems over the executable state model: cascade_terminates_all_graphs (every state and dependency graph, both state kinds, storage faults, '
+                      'expired facts), cascade_fuel_is_irrelevant, cascade_exact (linear state: exactly the least closure is removed from memory and storage, nothing else '
+                      'changes), cascade_succeeds. Tie to the code: Location histories replayed through the extracted model; the closure spec is evaluated after every '
+                      'successful RemFact/RemRule on both state kinds.',
+        'level_note': 'Exactness is proved for the linear state at instants where nothing is expired and ids do not look like variables (D14 is the complement); for the '
+                      'indexed state exactness rests on the correspondence plus C02 search exactness (composition not yet a single theorem).',
+        'technique': 'Coq proof (measure on present facts for termination; least-fixed-point characterisation for exactness) + differential replay with closure oracle',
+        'assumptions': ['facts are only removed during a removal (no concurrent adds: sequential histories)'],
+    },
+    'C19': {
+        'props_file': 'props/C19.v',
+        'domains': [{'name': 'loc-acl', 'quick': 400, 'thorough': 20000, 'thorough_shards': 10}],
+        'spec_ops': [],
+        'corr': 'corr.loc (CorrLoc.check_loc) on the ACL profile + gen/GateTable.v regenerated from the Go source',
+        'rule': 'loc-acl: every Location operation issued with no / wrong / right read and write keys against locations whose protection changes during the '
+                'history (!writeKey, !readKey, !enabled property facts set and removed, SetReadOnly), state and storage observed through later reads, sizes and '
+                'reloads; non-trivial = at least 3 distinct (op, outcome) kinds; distinct by hash of inputs',
+        'level_text': 'Coq theorems: by reflection over the gate table regenerated from /repo on every run — writers_need_write_gate, readers_need_read_gate (all exported '
+                      'Location methods, event processing and rule actions inlined), js_functions_use_callers_context, model_gates_match_source; and over the model — '
+                      'refused_unchanged (a refusing gate leaves facts, indexes and storage exactly as they were), write_gate_spec/read_gate_spec (right keys are transparent). '
+                      'Tie to the code: the regenerated table (translator) and op-by-op replay of ACL histories.',
+        'level_note': 'tools/gotables is syntactic and flow-insensitive (gate calls before accesses in source order, calls inlined by name); it is cross-checked by the behavioural '
+                      'ACL replay. Ungated exported helpers (SetProp, RemProp, GetProp, GetPropString, Have, RuleEnabled) are explicit exceptions in the theorem statements; '
+                      'GetParents has no read check (parent names are not facts or rules).',
+        'technique': 'Coq reflection over a source-derived table + Coq proof of gate refusal frame property + differential replay of the ACL matrix',
+        'assumptions': ['refused_unchanged is stated for instants at which nothing stored is expired (reading a gate property purges expired items, C07)'],
     },
 }
